@@ -10,7 +10,8 @@ and removed.  The verdict on the property stays the one hlcheck gave for the unc
 checker are reported in the evidence (undetected_variants / false_alarm_variants) and on stdout.
 usage: thorough.py <property id>
 """
-import sys, os, json, glob, subprocess, tempfile, shutil, time, concurrent.futures
+import sys, os, json, glob, subprocess, tempfile, shutil, time, concurrent.futures, signal
+signal.signal(signal.SIGPIPE, signal.SIG_DFL)
 HERE = os.path.dirname(os.path.abspath(__file__)); VERIF = os.path.dirname(HERE)
 sys.path.insert(0, HERE)
 import variants as V
